@@ -56,8 +56,30 @@ def generated(tier="quick"):
     return out
 
 
+def version_shapes():
+    """Sources whose ~Version section is unusual: VERS 1.0 (same ~Well layout as 1.2), VERS/WRAP lines given twice,
+    a 2.1 / 3.0 version number over 2.0 content; and ~Other text ending in blank lines."""
+    out = []
+    body = ("~Curve\nDEPT.M : depth\nGR.GAPI : gamma\n~Parameter\nP1.U 3.5 : a parameter\n~Other\nsome text\n"
+            "~ASCII\n1.0 10.5\n2.0 -999.25\n3.0 30.5\n")
+    well20 = "~Well\nSTRT.M 1.0 : start\nSTOP.M 3.0 : stop\nSTEP.M 1.0 : step\nNULL. -999.25 : null\nCOMP. ACME : company\nWELL. W-1 : well\n"
+    well12 = "~Well\nSTRT.M 1.0 : start\nSTOP.M 3.0 : stop\nSTEP.M 1.0 : step\nNULL. -999.25 : null\nCOMP. company : ACME\nWELL. well : W-1\n"
+    for vers, well in (("1.0", well12), ("1.2", well12), ("2.0", well20), ("2.1", well20), ("3.0", well20)):
+        out.append(("versions:vers=%s" % vers, "~Version\nVERS. %s : version\nWRAP. NO : wrap\n" % vers + well + body))
+    out.append(("versions:dup-wrap", "~Version\nVERS. 2.0 : version\nWRAP. NO : wrap\nWRAP. NO : wrap again\n" + well20 + body))
+    out.append(("versions:dup-vers", "~Version\nVERS. 2.0 : version\nVERS. 2.0 : version again\nWRAP. NO : wrap\n" + well20 + body))
+    out.append(("versions:dup-vers-12", "~Version\nVERS. 1.2 : version\nVERS. 1.2 : version again\nWRAP. NO : wrap\n" + well12 + body))
+    out.append(("versions:no-wrap-item", "~Version\nVERS. 2.0 : version\n" + well20 + body))
+    out.append(("versions:wrap-first", "~Version\nWRAP. NO : wrap\nVERS. 2.0 : version\n" + well20 + body))
+    for nblank in (1, 2, 3):
+        out.append(("other:trailing-blank-%d" % nblank, "~Version\nVERS. 2.0 : version\nWRAP. NO : wrap\n" + well20
+                    + body.replace("some text\n", "some text\nmore text\n" + "\n" * nblank)))
+    out.append(("other:inner-blank", "~Version\nVERS. 2.0 : version\nWRAP. NO : wrap\n" + well20 + body.replace("some text\n", "some text\n\n\nmore text\n")))
+    return out
+
+
 def all_inputs(tier="quick"):
-    return generated(tier) + TEXT_CURVE_INPUTS + corpus(600 if tier == "quick" else None)
+    return generated(tier) + TEXT_CURVE_INPUTS + version_shapes() + corpus(600 if tier == "quick" else None)
 
 
 def well_version_family():
